@@ -200,28 +200,31 @@ Section Iterate.
      memoized: they are yielded, and traversed, at every occurrence.  With mi = true the
      implementation memoizes leaves by id() as well, which depends on CPython's interning; the
      harness therefore compares only the pointer entries in that mode. *)
-  Fixpoint iter_memo (mi : bool) (fuel : nat) (seen : list nat) (r : ref) (p : path)
-    : list nat * list (ref * path) :=
+  Fixpoint iter_memo (mi : bool) (fuel : nat) (seen : list ref) (r : ref) (p : path)
+    : list ref * list (ref * path) :=
     match r with
+    | RA (ASym _) =>
+        (* functions and classes are leaves for the traversers but have identity: memoized *)
+        if existsb (ref_eqb r) seen then (seen, []) else (r :: seen, [(r, p)])
     | RA _ => (seen, [(r, p)])
     | RP i =>
         let memoized := mi || negb (internable (S (length h)) r) in
-        if memoized && existsb (Nat.eqb i) seen then (seen, []) else
+        if memoized && existsb (ref_eqb r) seen then (seen, []) else
         match fuel with
         | O => (seen, [])
         | S f =>
             match nth_error h i with
             | Some n =>
                 let '(seen', ys) :=
-                  (fix go (seen : list nat) (cs : list ref) (es : list pelt)
-                     : list nat * list (ref * path) :=
+                  (fix go (seen : list ref) (cs : list ref) (es : list pelt)
+                     : list ref * list (ref * path) :=
                      match cs, es with
                      | c :: cs', pe :: es' =>
                          let '(s1, y1) := iter_memo mi f seen c (p ++ [pe]) in
                          let '(s2, y2) := go s1 cs' es' in
                          (s2, y1 ++ y2)
                      | _, _ => (seen, [])
-                     end) (if memoized then i :: seen else seen) (children e n) (elts e n) in
+                     end) (if memoized then r :: seen else seen) (children e n) (elts e n) in
                 (seen', (r, p) :: ys)
             | None => (seen, [])
             end
